@@ -16,19 +16,34 @@ BUILT = [l.strip() for l in open(os.path.join(HERE, "tools", "built.txt")) if l.
 
 
 def run_checks(patch):
-    assert not subprocess.run(["git", "-C", "/repo", "status", "--porcelain", "--", "liesel"],
-                              capture_output=True, text=True).stdout.strip(), "/repo dirty"
-    subprocess.run(["git", "-C", "/repo", "apply", patch], check=True)
+    """Runs every check on a scratch copy of /repo/liesel with the patch applied (the same
+    code path as on /repo: `--repo` only changes the root that is parsed)."""
+    import tempfile
+    base = "/dev/shm" if os.path.isdir("/dev/shm") else tempfile.gettempdir()
+    s = tempfile.mkdtemp(prefix="lsa_seed_", dir=base)
     hits = {}
     try:
-        for p in BUILT:
-            r = subprocess.run(["python3-vt", "-m", "lsa", "check", p, "--no-selftest"],
-                               cwd=HERE, capture_output=True, text=True)
-            if r.returncode != 0:
-                lines = [l for l in r.stdout.splitlines() if " -- " in l and "[" in l]
-                hits[p] = {"exit": r.returncode, "reports": [l[:300] for l in lines[:4]]}
+        shutil.copytree("/repo/liesel", os.path.join(s, "liesel"),
+                        ignore=shutil.ignore_patterns("__pycache__"))
+        r = subprocess.run(["git", "apply", "-p1", os.path.abspath(patch)], cwd=s,
+                           capture_output=True, text=True)
+        if r.returncode != 0:
+            return {"_patch": {"exit": 2, "reports": ["patch does not apply to this tree"]}}
+
+        def one(p):
+            r = subprocess.run(["python3-vt", "-m", "lsa", "check", p, "--no-selftest",
+                                "--repo", s], cwd=HERE, capture_output=True, text=True,
+                               env={**os.environ, "LSA_EVIDENCE_DIR": s})
+            return p, r
+        from concurrent.futures import ThreadPoolExecutor
+        with ThreadPoolExecutor(8) as ex:
+            for p, r in ex.map(one, BUILT):
+                if r.returncode != 0:
+                    lines = [l.replace(s + "/", "") for l in r.stdout.splitlines()
+                             if " -- " in l and "[" in l]
+                    hits[p] = {"exit": r.returncode, "reports": [l[:300] for l in lines[:4]]}
     finally:
-        subprocess.run(["git", "-C", "/repo", "checkout", "--", "."], check=True)
+        shutil.rmtree(s, ignore_errors=True)
     return hits
 
 
@@ -82,7 +97,7 @@ def main():
                 "origin": "written by an independent sub-agent that saw only the property "
                           "text and a scratch worktree of /repo (nothing from /verif)"
                           + ("; second round: told which earlier seeds to avoid repeating"
-                             if SRC.endswith("wt2") else ""),
+                             if SRC.endswith(("wt2", "wt3")) else ""),
                 "needs_to_manifest": _needs(notes),
                 "confirmed_by_me": {
                     "how": "tools/confirm_seed.sh in a fresh scratch worktree of /repo: demo at "
@@ -91,8 +106,9 @@ def main():
                     "demo_exit_with_patch": conf["demo_rc_with_patch"],
                     "suite_with_patch": conf["suite_summary"],
                 },
-                "ran": "git -C /repo apply patch.diff; ./check <P> --tier quick for every "
-                       "claimed property; git -C /repo checkout -- .",
+                "ran": "patch applied to a scratch copy of /repo/liesel; python3-vt -m lsa check "
+                       "<P> --repo <copy> for every claimed property (same as ./check <P> after "
+                       "git -C /repo apply patch.diff)",
                 "detected_by": sorted(hits),
                 "reports": hits,
             }
